@@ -4,7 +4,7 @@
    YVGen.ScopeCfg); side conditions are decided here by computation. *)
 From Coq Require Import List Arith Bool String ZArith NArith Lia.
 From YVGen Require Import Consts ScopeCfg.
-From YV Require Import Upvalues Cells UpvaluesProofs ScopeLang ScopeComp ScopeRun ScopeLangProofs ScopeSwap ScopeSim ScopeDefs2 ScopeStage.
+From YV Require Import Upvalues Cells UpvaluesProofs ScopeLang ScopeComp ScopeRun ScopeLangProofs ScopeSwap ScopeSim ScopeDefs2 ScopeDefsN ScopeStage.
 Import ListNotations.
 
 Definition upvalues_max := N.to_nat UPVALUES_MAX.
@@ -139,9 +139,24 @@ Theorem C06_compile_scope_correct_stage1g : forall cf p funs fuel st en,
   forallb (stmt4 true) p = true -> compile_scope cf p = Some funs ->
   exec_list fuel p [] true s_empty = (st, en, CNorm) ->
   exists n, forall k, Gen.run_funs bk_m cf (n + k) funs = eval_cells_fuel fuel p.
-Proof. exact compile_scope_correct_stage1g. Qed.
+Proof. exact compile_scope_correct_stage1g. Qed.   (* corollary of stage 2 below *)
 
 Print Assumptions C06_compile_scope_correct_stage1g.
+
+(* --- compile_scope_correct, stage 2: nested function levels, to ANY depth (fragment `stmt5 false true` of
+       ScopeDefsN.v): function definitions (`fn`, lambdas, with parameters) inside function bodies; a closure captures
+       locals of the body that creates it (is_local = true: captured flag, CloseUpvalue / the frame's return closing the
+       upvalue inside the call frame) and variables of functions further out through the enclosing closure's own
+       upvalues (is_local = false, Parser::resolve_upvalue recursing through all levels); blocks, declarations,
+       assignments, print, calls with arguments, `return`, self reference as in stage 1.  Stage 1 (general) is a
+       corollary. --- *)
+Theorem C06_compile_scope_correct_stage2 : forall cf p funs fuel st en,
+  forallb (stmt5 false true) p = true -> compile_scope cf p = Some funs ->
+  exec_list fuel p [] true s_empty = (st, en, CNorm) ->
+  exists n, forall k, Gen.run_funs bk_m cf (n + k) funs = eval_cells_fuel fuel p.
+Proof. exact compile_scope_correct_stage2. Qed.
+
+Print Assumptions C06_compile_scope_correct_stage2.
 Print Assumptions C06_compile_scope_correct_stage1.
 Print Assumptions C06_backend_swap.
 Print Assumptions C06_compile_scope_correct_stage1a.
